@@ -324,6 +324,9 @@ class Evaluator:
         return f"{prefix}{self._n}"
 
     def emit(self, kind, live, term, node):
+        if self._post and live != FALSE:
+            # an inlined helper raised under some condition earlier in this statement: what follows runs otherwise
+            live = AND(live, *self._post)
         ev = Event(kind, live, term, node, tuple(self.loop_stack), len(self.events), tuple(self.try_stack),
                    tuple(self.handler_stack))
         self.events.append(ev)
